@@ -252,7 +252,7 @@ func (g *Gen) FreshBytes(hint string, n int) *Term {
 		// explicit length variable so that solver models expose the length of every symbolic byte string
 		l := Var(g.name(hint+"_len"), SInt)
 		g.lens[v.Key()] = l
-		g.facts[l.Name] = []*Term{Ge(l, IntC(0)), Lt(l, IntB(Pow2(62)))}
+		g.facts[l.Name] = []*Term{Ge(l, IntC(0)), Le(l, IntB(Pow2(40)))} // physical bound on any in-memory string (assumption A14)
 		g.facts[v.Name] = []*Term{Eq(App("blen", SInt, v), l)}
 	}
 	return v
@@ -325,7 +325,12 @@ func (g *Gen) Fresh(t types.Type, hint string) Value {
 		obj.initFn = func() Value { return g.FreshMapState(u, hint) }
 		return &MapV{Nil: Var(g.name(hint+"_isnil"), SBool), Obj: obj, T: u}
 	case *types.Interface:
-		return &IfaceV{ID: g.FreshInt(hint+"_iface", types.Typ[types.Int64])}
+		id := g.FreshInt(hint+"_iface", types.Typ[types.Int64])
+		g.facts[id.Name] = append(g.facts[id.Name], Ge(id, IntC(0)))
+		if g.nonNil && !isErrorType(t) {
+			g.facts[id.Name] = append(g.facts[id.Name], Gt(id, IntC(0)))
+		}
+		return &IfaceV{ID: id}
 	case *types.Chan:
 		obj := g.NewObject(t, hint)
 		obj.Sym = true
@@ -352,7 +357,7 @@ func (g *Gen) FreshSlice(elem types.Type, hint string) *SliceV {
 		ln = g.BLen(c)
 	} else {
 		lv := g.FreshInt(hint+"_len", types.Typ[types.Int])
-		g.facts[lv.Name] = append(g.facts[lv.Name], Ge(lv, IntC(0)))
+		g.facts[lv.Name] = append(g.facts[lv.Name], Ge(lv, IntC(0)), Le(lv, IntB(Pow2(40))))
 		ln = lv
 		g.n++
 		obj.init = &SymSeq{ID: g.n, Elem: elem, Name: hint}
@@ -370,7 +375,7 @@ func (g *Gen) FreshMapState(m *types.Map, hint string) *MapState {
 	ms := &MapState{Has: Var(g.name(hint+"_has"), ArrSort(ks, SBool))}
 	ms.Vals = g.freshArrShape(ks, m.Elem(), hint+"_val")
 	l := g.FreshInt(hint+"_maplen", types.Typ[types.Int])
-	g.facts[l.Name] = append(g.facts[l.Name], Ge(l, IntC(0)))
+	g.facts[l.Name] = append(g.facts[l.Name], Ge(l, IntC(0)), Le(l, IntB(Pow2(40))))
 	ms.Len = l
 	return ms
 }
